@@ -33,6 +33,7 @@ Definition res_of (o : outcome) : option res :=
   | ORaise ECancelled => Some RCancelled
   | ORaise EValue => Some RValue
   | ORaise EType => Some RType
+  | OCancelled => Some RCancelled
   | _ => None
   end.
 
